@@ -2,6 +2,7 @@
 import os, sys
 sys.path.insert(0, os.path.dirname(os.path.abspath(__file__)))
 import chain_common as cc
+import mempool_stage
 WHAT = {"Portable": "an honest proposal was refused by an honest replica with the same prefix, or a block served from the archive did not re-validate on a fresh node"}
 def main(tier):
-    return cc.run("C11", tier, set(WHAT), WHAT, ["G_ArchiveCanonical"])
+    return cc.run("C11", tier, set(WHAT), WHAT, ["G_ArchiveCanonical"], extra_stage=mempool_stage.run)
